@@ -20,6 +20,7 @@ type SpecEnv struct {
 	depth    int
 	allocOld string
 	lentry   *State
+	oldVars  map[string]Term // entry values of mutable parameters (used inside old())
 }
 
 func (e *SpecEnv) with(vars map[string]Term) *SpecEnv {
@@ -38,6 +39,15 @@ func (e *SpecEnv) inOld() *SpecEnv {
 	n := *e
 	if e.old != nil {
 		n.st = e.old
+	}
+	if len(e.oldVars) > 0 {
+		n.vars = make(map[string]Term, len(e.vars))
+		for k, v := range e.vars {
+			n.vars[k] = v
+		}
+		for k, v := range e.oldVars {
+			n.vars[k] = v
+		}
 	}
 	return &n
 }
